@@ -1,7 +1,7 @@
 (* C05 -- results always reflect the current data, regions and links: never a stale cache.  Statements only. *)
 From Coq Require Import List Bool Arith.
 Import ListNotations.
-From GV Require Import gen.Gen_memo C01.Heap C01.Model C05.Model C05.Lemmas.
+From GV Require Import gen.Gen_memo C01.Heap C01.Model C05.Model C05.Post C05.Lemmas.
 
 (* Over every history of evaluation requests and mutations (values updates with hub listeners evaluating during
    the broadcast, move_to, attribute assignment, link changes, state replacement), from any store coherent with
@@ -109,3 +109,49 @@ Print Assumptions histogram_key_fields.
 Theorem floodfill_recompute_test : floodfill_key = 1.
 Proof. exact Lemmas.floodfill_recompute_test. Qed.
 Print Assumptions floodfill_recompute_test.
+
+(* ---- post-processing reads: settings that are NOT part of the cache key (normalize, cumulative, ...) are applied on top of the cached value
+   at every read.  With an immutable cached value (a read returns `post settings cached`), for every history of key-setting changes,
+   presentation-setting changes and reads, from any cache that holds a value its key determines, every read returns
+   `post current_settings (compute current_key)` = what freshly constructed objects with the current settings return. *)
+Theorem post_reads_fresh :
+  forall (K S V R : Type) (keqb : K -> K -> bool), (forall a b, keqb a b = true -> a = b) ->
+  forall (compute : K -> V) (post : S -> V -> R) (ops : list (pop K S)) (k : K) (s : S) (cache : option (K * V)),
+    pcache_ok K V compute cache ->
+    prun K S V R keqb compute post (k, s, cache) ops = pspec K S V R compute post k s ops.
+Proof. exact Lemmas.post_reads_fresh. Qed.
+Print Assumptions post_reads_fresh.
+
+(* REFUTED for the variant whose post-processing works in place on the cell (the cell then holds what the last read produced):
+   read with normalize on, switch it off, read again. *)
+Theorem inplace_post_refuted :
+  exists (compute : unit -> list nat) (ops : list (pop unit (bool * bool))),
+    prun_mut unit (bool * bool) (list nat) unit_eqb compute hist_post (tt, (false, false), None) ops
+    <> pspec unit (bool * bool) (list nat) (list nat) compute hist_post tt (false, false) ops.
+Proof. exact Lemmas.inplace_post_refuted. Qed.
+Print Assumptions inplace_post_refuted.
+
+(* The checker of programs that read a cache entry is sound: a program it accepts never writes into the cached value (location 0), whichever
+   branches are taken, however often loops run, whatever the right-hand sides that MAY share memory with the entry actually return. *)
+Theorem safe_prog_sound : forall p, safe_prog p = true ->
+  forall e e' w, clean e -> exec e p e' w -> w = false.
+Proof. exact Lemmas.safe_prog_sound. Qed.
+Print Assumptions safe_prog_sound.
+
+(* On the table regenerated from the CURRENT source: no function that reads a cache entry (a `*_cache` attribute, memoize's dict, the result
+   of a memoised to_mask / get_mask / update_histogram / update_profile / .profile / .histogram) modifies it in place -- every `/=`, `*=`,
+   `x[..] =`, `.sort()`, `out=` is applied to a name that was re-bound to a new array (`.copy()`, `.astype(..)`, `np.array(..)`, arithmetic)
+   first.  One row is exempt: compute_fixed_resolution_buffer (see PostLemmas.post_table_safe). *)
+Theorem cached_values_never_written : forall n p,
+  In (n, p) post_fns -> n <> post_fn_frb ->
+  forall e e' w, clean e -> exec e p e' w -> w = false.
+Proof. exact Lemmas.cached_values_never_written. Qed.
+Print Assumptions cached_values_never_written.
+
+(* the rows for HistogramLayerState.histogram, ProfileLayerState.profile and memoize's wrapper are in the table and pass the checker *)
+Theorem post_table_rows :
+  (exists p, post_fn post_fn_histogram = Some p /\ safe_prog p = true) /\
+  (exists p, post_fn post_fn_profile = Some p /\ safe_prog p = true) /\
+  (exists p, post_fn post_fn_memoize = Some p /\ safe_prog p = true).
+Proof. exact Lemmas.post_table_rows. Qed.
+Print Assumptions post_table_rows.
